@@ -565,6 +565,11 @@ func (r *Runner) cmd(ctx context.Context, cm syntax.Command) {
 		r.stmts(ctx, cm.Cond)
 		r.noErrExit = oldNoErrExit
 
+		if r.breakEnclosing > 0 || r.contnEnclosing > 0 {
+			// A break or continue in the condition leaves the
+			// conditional with the status it produced.
+			break
+		}
 		if r.exit.ok() {
 			r.stmts(ctx, cm.Then)
 			break
